@@ -94,6 +94,21 @@ NAMES = ["a", "b", "p", "div", "span", "script", "style", "title", "textarea", "
 ATTRS = ["id", "class", "href", "x", "X", "a:b", "xmlns", "xmlns:p", "p:x", "data-x", "checked", "id"]
 ENTS = ["amp", "lt", "gt", "quot", "apos", "nbsp", "not", "notin", "noti", "copy", "AElig", "ampx", "am", "x", "NotEqualTilde",
         "#65", "#x41", "#X41", "#0", "#x80", "#x9f", "#xD800", "#x110000", "#99999999999", "#", "#x", "#xg", "#6x", "#x4g"]
+# numeric references at the edges of every range the numeric rule distinguishes, in BOTH bases (decimal and hex take
+# different multiply/add paths): 0, C0/C1 controls, surrogates, noncharacters, the Unicode limit, the u32 limit
+_NUM_EDGES = [0, 1, 8, 9, 0xB, 0xC, 0xD, 0x1F, 0x20, 0x7E, 0x7F, 0x80, 0x9F, 0xA0, 0xD7FF, 0xD800, 0xDFFF, 0xE000, 0xFDCF, 0xFDD0,
+              0xFDEF, 0xFDF0, 0xFFFD, 0xFFFE, 0xFFFF, 0x10000, 0x1FFFE, 0x10FFFD, 0x10FFFE, 0x10FFFF, 0x110000, 0x110001, 0x110007,
+              0x110008, 0x11000F, 0x110010, 0x1FFFFF, 0x7FFFFFFF, 0x80000000, 0xFFFFFFFF, 0x100000000, 0x100000001, 0x10FFFF0,
+              0x10FFFFF, 10 ** 12]
+NUM_ENTS = ["#%d" % n for n in _NUM_EDGES] + ["#x%X" % n for n in _NUM_EDGES] + ["#0000%d" % n for n in _NUM_EDGES[20:34]]
+# characters next to the boundaries of the ASCII classes the parsers test, and characters that Rust's Unicode-aware
+# predicates (char::is_whitespace / is_alphanumeric / is_alphabetic / is_numeric / to_lowercase / str::trim) class
+# differently from the ASCII ones the standard asks for
+EDGE_WS = ["\x0b", "\x1c", "\x1d", "\x1e", "\x1f", "\x85", "\xa0", "\u1680", "\u2000", "\u2028", "\u2029", "\u202f", "\u205f", "\u3000"]
+EDGE_ALNUM = ["\xe9", "\xdf", "\u0130", "\u0131", "\u212a", "\u017f", "\u01c5", "\u03a9", "\xb5", "\u0663", "\uff11", "\u2167",
+              "\xb2", "\xbd", "\u0660", "\u00aa"]
+EDGE_ASCII = ["@", "[", "`", "{", "/", ":", "G", "g", "Z", "z"]
+EDGE = EDGE_WS + EDGE_ALNUM + EDGE_ASCII
 WS = [" ", "\t", "\n", "\r", "\r\n", "\x0c", "  ", "\n\n", "\r\r", "\n\r"]
 TEXTCH = ["a", "b", "z", "A", "0", "9", " ", "\n", "\r", "\r\n", "\t", "\x0c", "\0", "<", ">", "&", "\"", "'", "=", "/",
           "!", "-", "?", ";", "#", "[", "]", "`", ":", "x", "X", "é", " ", "﻿", "�", "\U0001f600",
@@ -107,8 +122,11 @@ def g_ws(r, opt=True):
 
 
 def g_ref(r):
-    e = r.choice(ENTS)
-    return "&" + e + (";" if r.random() < 0.6 else "") + (r.choice(["", "=", "x", "1", " ", "\r", "\n", "<", "&"]) if r.random() < 0.4 else "")
+    e = r.choice(ENTS) if r.random() < 0.8 else r.choice(NUM_ENTS)
+    fol = ""
+    if r.random() < 0.4:
+        fol = r.choice(["", "=", "x", "1", " ", "\r", "\n", "<", "&"]) if r.random() < 0.7 else r.choice(EDGE)
+    return "&" + e + (";" if r.random() < 0.6 else "") + fol
 
 
 def g_text(r, n=6):
@@ -117,6 +135,8 @@ def g_text(r, n=6):
         k = r.random()
         if k < 0.12:
             out.append(g_ref(r))
+        elif k < 0.17:
+            out.append(r.choice(EDGE))
         else:
             out.append(r.choice(TEXTCH))
     return "".join(out)
@@ -287,10 +307,34 @@ RESPS = ["", "", "script=S", "script=S,title=Rrcdata,textarea=Rrcdata,style=Rraw
          "script=Rscript,style=Rrawtext,title=Rrcdata,plaintext=P", "a=Rescaped,b=Rdblescaped", "meta=E,p=P"]
 
 
+def gen_ref_context(r, xml=False):
+    """a character reference in each of its contexts (data, the three attribute-value forms) followed by a character
+    from the class-boundary pools: the rules that end a reference ('=', ASCII alphanumeric, ';', white space) are
+    where ASCII and Unicode predicates part"""
+    ref = g_ref(r)
+    if r.random() < 0.5:
+        ref = "&" + r.choice(ENTS[:12]) + r.choice(EDGE + ["=", ";", "a", "Z", "5", " ", "\n", "&", "<", "\"", "'", ">", ""])
+    pre = r.choice(["", "x", "\xe9", " "])
+    k = r.random()
+    if k < 0.25:
+        return "<p>" + pre + ref + r.choice(["", "y", "</p>"])
+    q = r.choice(["\"", "'", ""])
+    body = pre.strip() + ref + r.choice(["", "z"])
+    if q == "":
+        body = re.sub(r"[ \t\n\r\x0c>]", "", body) or "v"
+    else:
+        body = body.replace(q, "")
+    tail = r.choice([">", "/>", " c=d>", ">t"])
+    return "<a b=" + q + body + q + tail
+
+
 def gen_case(r, fl=None):
     fl = fl or ("h" if r.random() < 0.6 else "x")
     k = r.random()
-    s = (gen_html(r) if fl == "h" else gen_xml(r)) if k < 0.85 else gen_junk(r)
+    if k < 0.06:
+        s = gen_ref_context(r, fl != "h")
+    else:
+        s = (gen_html(r) if fl == "h" else gen_xml(r)) if k < 0.85 else gen_junk(r)
     chunks = r.choice(chunkings(r, s, 2))
     if fl == "h":
         st = r.choice(HTML_STATES)
